@@ -22,6 +22,7 @@ verif, repo = sys.argv[1], sys.argv[2]
 modcache = subprocess.check_output(["go", "env", "GOMODCACHE"], cwd=repo).decode().strip()
 m = {
   repo + "/rel/zz_verif_shape.go": verif + "/hooks/rel_zz_verif_shape.go.txt",
+  repo + "/rel/zz_verif_c18.go": verif + "/hooks/rel_zz_verif_c18.go.txt",
   # E3 seams: hash seeds of arr-ai/hash and of frozen's internal hash package become a function of $VERIF_HASH_SEED
   modcache + "/github.com/arr-ai/hash@v1.1.0/zz_verif_seed.go": verif + "/hooks/hash_zz_verif_seed.go.txt",
   modcache + "/github.com/arr-ai/frozen@v1.11.0/internal/pkg/hash/zz_verif_seed.go": verif + "/hooks/hash_zz_verif_seed.go.txt",
